@@ -69,6 +69,16 @@ func c11Run(p c11Plan) *common.Fail {
 		if !bytes.Equal(buf, ref) {
 			return common.Failf("layout-encode", "cemi.Pack of %s\n gives     %x\n reference %x", common.Show(lib), buf, ref)
 		}
+		// the layout is a function of the value: it must come out the same in a buffer that held other bytes before
+		for _, fill := range []byte{0xff, 0xa5} {
+			for i := range buf {
+				buf[i] = fill
+			}
+			cemi.Pack(buf, lib)
+			if !bytes.Equal(buf, ref) {
+				return common.Failf("layout-encode-stale", "cemi.Pack of %s into a buffer pre-filled with %#02x\n gives     %x\n reference %x", common.Show(lib), fill, buf, ref)
+			}
+		}
 		var m cemi.Message
 		n, err := cemi.Unpack(ref, &m)
 		if err != nil {
@@ -87,6 +97,9 @@ func c11Run(p c11Plan) *common.Fail {
 		want := *c.LData
 		if !want.TPDU.Numbered {
 			want.TPDU.Seq = 0 // not carried by the layout when the numbered flag is clear
+		}
+		if !want.TPDU.Control && len(want.TPDU.Data) == 0 {
+			want.TPDU.Data = []byte{0} // an application unit always carries the octet that holds the 6-bit short data
 		}
 		if got := fromLibLData(l); !sameRLData(got, &want) {
 			return common.Failf("layout-decode-fields", "bytes %x\n decoded  %+v\n expected %+v", ref, *got, want)
@@ -225,7 +238,18 @@ func TestC11(t *testing.T) {
 			}
 		}
 	}
-	rec.Exhaustive("all 16 APCI x 16 sequence x numbered x control/data combinations")
+	// application units without payload (group reads): the short-data field must be written as zero
+	for apci := 0; apci < 16; apci++ {
+		for _, numbered := range []bool{false, true} {
+			c := base()
+			c.LData.TPDU = common.RTPDU{Numbered: numbered, APCI: uint8(apci)}
+			if numbered {
+				c.LData.TPDU.Seq = uint8(apci)
+			}
+			do(c11Plan{Mode: "value", Cemi: c})
+		}
+	}
+	rec.Exhaustive("all 16 APCI x 16 sequence x numbered x control/data combinations; all 16 APCI x numbered with an empty application payload")
 	// every TPCI octet and APCI-low/short-data octet in raw bytes (decode direction incl. reserved bit patterns)
 	for tp := 0; tp < 256; tp++ {
 		for a := 0; a < 256; a += 1 {
@@ -274,6 +298,9 @@ func TestC11(t *testing.T) {
 	common.Drive(t, rec, func(rt *rapid.T) c11Plan {
 		kind := rapid.SampledFrom(common.CemiKinds[:6]).Draw(rt, "kind")
 		c := common.GenCemi(rt, kind)
+		if !c.LData.TPDU.Control && rapid.IntRange(0, 5).Draw(rt, "empty-payload") == 0 {
+			c.LData.TPDU.Data = nil
+		}
 		if !c.LData.TPDU.Numbered {
 			c.LData.TPDU.Seq = 0
 		}
